@@ -32,10 +32,14 @@ pub fn draw_job(rng: &mut Rng, c: &Corpus) -> Job {
         // prefixes, several files of identical layout, programs on <std>),
         // as they are and as token-level mutants
         let mut disk = crate::disk::Disk::new(corpus::PROJ);
-        let root = match rng.below(6) {
+        let root = match rng.below(9) {
             4 | 5 => {
                 disk.add_file("banks.asm", crate::c10::bank_program(rng));
                 "banks.asm".to_string()
+            }
+            6 | 7 | 8 => {
+                disk.add_file("conv.asm", crate::c10::convergence_program(rng));
+                "conv.asm".to_string()
             }
             0 => {
                 disk.add_file("prog.asm", crate::c10::symbol_program(rng));
@@ -447,7 +451,7 @@ use crate::procsim::{proc_replay, ProcFault, ProcPlan, ProcRecord};
 
 const READ_KINDS: &[&str] = &["probe-enoent", "open-eacces", "open-emfile", "read-eio"];
 const WRITE_KINDS: &[&str] = &["create-eacces", "create-erofs", "write-enospc", "write-eio", "write-short-enospc"];
-const MASKED_KINDS: &[&str] = &["eintr-read", "eintr-write", "short-read", "short-write", "stat-fd-fail"];
+const MASKED_KINDS: &[&str] = &["eintr-read", "eintr-write", "short-read", "short-write", "stat-fd-fail", "stat-fd-inflate"];
 
 fn is_read_kind(k: &str) -> bool {
     READ_KINDS.contains(&k)
@@ -498,6 +502,33 @@ pub fn check_proc(job: &Job, faults: &[ProcFault], rec: &ProcRecord, baseline: O
             }
             if let Some(spec) = &job.spec {
                 let expected = if spec.help || spec.version { 0 } else { spec.groups.iter().filter(|g| !g.print).count() };
+                // the bytes on the real disk are the result in the requested
+                // format (explicit, unique -o names that are not inputs)
+                if faults.is_empty() && !spec.help && !spec.version {
+                    let (ins, _) = proc_touched(rec);
+                    let file_groups: Vec<&crate::job::Group> = spec.groups.iter().filter(|g| !g.print).collect();
+                    let overwrote_input = rec.events.iter().any(|e| e.op == "create" && ins.contains(&e.resolved));
+                    if !overwrote_input {
+                        for g in &file_groups {
+                            if let Some(name) = &g.out {
+                                if file_groups.iter().filter(|x| x.out.as_ref() == Some(name)).count() != 1 || name.contains("..") {
+                                    continue;
+                                }
+                                let sim_path = format!("{}/{}", corpus::PROJ, name);
+                                let on_disk = rec.changed.get(&sim_path).map(|t| crate::disk::b64::from_text(t)).or_else(|| match job.disk.nodes.get(&sim_path) {
+                                    // rewritten with identical content: not listed as changed
+                                    Some(crate::disk::Node::File(d)) => Some(d.clone()),
+                                    _ => None,
+                                });
+                                if let (Some(got), Some(exp)) = (on_disk, expected_group_bytes(job, &g.format, false)) {
+                                    if got != exp {
+                                        v.push(Violation::new("I2-output-content-mismatch", format!("the file `{}` on the real disk does not hold the result in the requested format ({} bytes on disk, {} expected) | {}", name, got.len(), exp.len(), ctx)));
+                                    }
+                                }
+                            }
+                        }
+                    }
+                }
                 let creates = rec.events.iter().filter(|e| e.op == "create" && e.ret >= 0).count();
                 if creates != expected {
                     v.push(Violation::new(if creates < expected { "I2-success-missing-output" } else { "I2-success-extra-output" }, format!("exit 0, {} file group(s) requested, {} file(s) created | {}", expected, creates, ctx)));
